@@ -13,7 +13,9 @@ RULES = {
            "offsets, exposure 50-500 us. Oracle: ASan+UBSan on the real streamer/binning/fill code; get_shape == request "
            "clamped to [1, 8192/binning] with strides (1,1,w,w*h); get() reads back the values in effect; get_frame gets an "
            "exact-size heap block pre-filled with a per-call pattern and over >=6 frames every image byte must have been "
-           "overwritten at least once. Non-trivial = case that streamed frames; distinct by (binning, type, clamped shape) "
+           "overwritten at least once; a third of the configurations use the software trigger (one trigger per frame call), a "
+           "quarter of the runs apply the settings again while live, runs are repeated without a set in between. "
+           "Non-trivial = case that streamed frames; distinct by (binning, type, clamped shape) "
            "sequence hash. One sanitizer report ends a worker; it is restarted behind the failing case.",
     "C18": "seeded cases: 3-6 start/stop runs per camera with a consumer thread (get_frame loop), a trigger thread (paced "
            "or bursts) and the stopping thread; software trigger on/off per run, reconfiguration between runs incl. "
@@ -87,15 +89,23 @@ def run(prop, tier, replay=None):
     # a hang (rc 5) is believed only when it repeats from a fresh process
     hung = [wk for wk in all_workers if wk.rc == 5]
     confirms = []
-    for wk in hung[:3]:
+    for wk in hung[:4]:
         wit = (wk.records("X") or [{}])[-1]
         parts = str(wit.get("case", "")).split()
         if len(parts) >= 3:
-            c = mk(int(parts[2]), 1, wk.span[2], 900 + wk.span[3])
-            c.origin = wk
-            confirms.append(c)
-    vlib.run_pool(confirms)
+            # a hang that needs a narrow interleaving does not come back every time: several fresh attempts per case
+            for k in range(8):
+                c = mk(int(parts[2]), 1, wk.span[2], 900 + 10 * wk.span[3] + k)
+                c.origin = wk
+                confirms.append(c)
+    for i in range(0, len(confirms), 16):  # stop as soon as one attempt hangs again
+        vlib.run_pool(confirms[i:i + 16])
+        if any(c.rc == 5 for c in confirms[i:i + 16]):
+            confirms = confirms[:i + 16]
+            break
     reproduced = any(c.rc == 5 for c in confirms)
+    if hung:
+        chk.notes.append("%d hung case(s) re-run in %d fresh processes: %d hung again" % (min(len(hung), 4), len(confirms), sum(1 for c in confirms if c.rc == 5)))
     if hung and not reproduced:
         for wk in hung:
             wk.out = "\n".join(l for l in wk.out.splitlines() if "hang" not in l and "not-released" not in l)
